@@ -5,11 +5,22 @@
       (meaning) for ALL operand expressions of equal width n, all register / flag / memory valuations and all interpretations
                 of uninterpreted operators: the value is the n-bit sum / difference / bitwise result (with carry-in for adc/sbb),
                 cf is the carry / borrow out, of is the signed overflow, zf / sf / pf are those of the result.
+    Condition codes (setcc / cmovcc / jcc, all sixteen conditions): EVERY such form of the regenerated dump realises, in every
+    state, memory and operator interpretation, the SDM condition its mnemonic names — the byte is 1 or 0, the destination takes
+    the other operand or keeps its value, eip becomes the other branch or the next-instruction address; decided by evaluation
+    under the 32 valuations of (cf, zf, sf, of, pf) and lifted to all states by a coincidence theorem for flag-only expressions
+    (SemCCProofs).  After a comparison the sixteen conditions are the unsigned / signed order relations (cc_after_cmp).
+    Data movement (mov xchg movzx movsx lea not push pop nop clc stc cmc cld std): every such form of the regenerated dump is,
+    node for node, the mirror of SemMov.v applied to the operand expressions the lifter was called with (dumped beside the list),
+    except the shapes the mirror declines (segment-register push/pop; movzx/movsx/lea between equal or mismatched widths under
+    the 66 prefix); for ALL operands and states: movzx yields the source's value, movsx its sign extension (bit level), not the
+    one's complement, push/pop move esp by the operand size modulo 2^32, pop to a memory operand addressed through esp uses the
+    incremented esp, cmc complements cf.
     af is refuted (known finding: the formula is pinned by tests/test_emul.py).  Everything else of the integer core (shifts,
-    rotates, mul/div, string, stack, control transfer, setcc/cmovcc ...) is decided by evaluating the regenerated IR with the
+    rotates, mul/div, string, other control transfers ...) is decided by evaluating the regenerated IR with the
     extracted Expr.eval against the SDM reference (harness/p_c04.py), not by a theorem. *)
 From Coq Require Import ZArith List Bool String.
-From Mx Require Import Expr Wf Sem SemProofs SemFacts.
+From Mx Require Import Expr Wf Sem SemProofs SemFacts SemCC SemCCProofs SemCCFacts SemMov SemMovProofs SemMovFacts.
 From MxGen Require Import LiftAll.
 Import ListNotations.
 Open Scope Z_scope.
@@ -106,6 +117,81 @@ Theorem C04_carry_identities : forall n x y ci, 0 < n -> 0 <= x < 2 ^ n -> 0 <= 
 Proof. intros n x y ci Hn Hx Hy Hc. split; [exact (add_identities n x y ci Hn Hx Hy Hc) | exact (sub_identities n x y ci Hn Hx Hy Hc)]. Qed.
 Print Assumptions C04_carry_identities.
 
+(** condition codes: every regenerated setcc / cmovcc / jcc form, every state *)
+Theorem C04_setcc : forall sh c k l, In sh shards -> In c sh -> cc_family (lc_mnemo c) = Some (FSet, k) -> lc_lift c = Some l ->
+  exists a x s, l = [a] /\ expr_eqb (mk_aff x s) a = true /\ size x = 8 /\ size s = 8 /\
+    forall rho mu iota, eval rho mu iota s = b2z (cc_holds k (fl_of rho)).
+Proof. exact setcc_forms. Qed.
+Print Assumptions C04_setcc.
+
+Theorem C04_cmovcc : forall sh c k l, In sh shards -> In c sh -> cc_family (lc_mnemo c) = Some (FCmov, k) -> lc_lift c = Some l ->
+  exists a x g p q b, l = [a] /\ expr_eqb (mk_aff x (ECond g p q)) a = true /\ (b = p \/ b = q) /\
+    forall rho mu iota, eval rho mu iota (ECond g p q) = if cc_holds k (fl_of rho) then eval rho mu iota b else eval rho mu iota x.
+Proof. exact cmovcc_forms. Qed.
+Print Assumptions C04_cmovcc.
+
+Theorem C04_jcc : forall sh c k l, In sh shards -> In c sh -> cc_family (lc_mnemo c) = Some (FJcc, k) -> lc_lift c = Some l ->
+  exists d g p q t, l = [EAff d (ECond g p q)] /\ is_eip d = true /\ (t = p \/ t = q) /\
+    forall rho mu iota, eval rho mu iota (ECond g p q) = if cc_holds k (fl_of rho) then eval rho mu iota t else lc_next c.
+Proof. exact jcc_forms. Qed.
+Print Assumptions C04_jcc.
+
+(** the checkers decide for all states: a flag-only expression depends on the state through the five flag bits only *)
+Theorem C04_flag_expressions : forall rho mu iota e, flagexp e = true -> eval rho mu iota e = feval (fl_of rho) e.
+Proof. exact feval_any. Qed.
+Print Assumptions C04_flag_expressions.
+
+(** the sixteen conditions after cmp x, y (flags as proved in C04_sub_sbb_cmp): the order relations their mnemonics name *)
+Theorem C04_conditions_after_cmp : forall n x y pf, 0 < n -> 0 <= x < 2 ^ n -> 0 <= y < 2 ^ n ->
+  let v := cmp_flags n x y pf in
+  cc_holds CB v = (x <? y) /\ cc_holds CAE v = (y <=? x) /\ cc_holds CE v = (x =? y) /\ cc_holds CNE v = negb (x =? y) /\
+  cc_holds CBE v = (x <=? y) /\ cc_holds CA v = (y <? x) /\
+  cc_holds CL v = (sgnv n x <? sgnv n y) /\ cc_holds CGE v = (sgnv n y <=? sgnv n x) /\
+  cc_holds CLE v = (sgnv n x <=? sgnv n y) /\ cc_holds CG v = (sgnv n y <? sgnv n x).
+Proof. exact cc_after_cmp. Qed.
+Print Assumptions C04_conditions_after_cmp.
+
+(** data movement: the regenerated forms are the mirror applied to the dumped operands, and what the mirror means *)
+Theorem C04_data_movement_forms_are_the_mirror : forall sh c k l, In sh shards -> In c sh -> mv_of (lc_mnemo c) = Some k -> lc_lift c = Some l ->
+  mirror_mv k (lc_args c) = None \/ is_mirror_mv k (lc_args c) l = true.
+Proof. exact mv_forms_lifted. Qed.
+Print Assumptions C04_data_movement_forms_are_the_mirror.
+
+Theorem C04_tied_data_movement_means_mirror : forall k args l, is_mirror_mv k args l = true ->
+  exists m, mirror_mv k args = Some m /\ forall rho mu iota, map (eval rho mu iota) l = map (eval rho mu iota) m.
+Proof. exact is_mirror_mv_sound. Qed.
+Print Assumptions C04_tied_data_movement_means_mirror.
+
+Theorem C04_movzx : forall rho mu iota a b, operand_ok b = true -> size b < size a -> eval rho mu iota (zext_src a b) = eval rho mu iota b.
+Proof. exact zext_value. Qed.
+Print Assumptions C04_movzx.
+
+Theorem C04_movsx : forall rho mu iota a b, operand_ok b = true -> size b < size a -> size a - size b <= 32 -> forall i, 0 <= i ->
+  Z.testbit (eval rho mu iota (sext_src a b)) i =
+    if i <? size b then Z.testbit (eval rho mu iota b) i else (i <? size a) && Z.testbit (eval rho mu iota b) (size b - 1).
+Proof. exact sext_bits. Qed.
+Print Assumptions C04_movsx.
+
+Theorem C04_not : forall rho mu iota b, operand_ok b = true -> eval rho mu iota (e_not b) = 2 ^ size b - 1 - eval rho mu iota b.
+Proof. exact not_value. Qed.
+Print Assumptions C04_not.
+
+Theorem C04_push_pop_stack_pointer : forall rho mu iota k,
+  eval rho mu iota (EOp "-" [esp; EInt false 32 k]) = (rho "esp" - k) mod 2 ^ 32 /\
+  eval rho mu iota (EOp "+" [esp; EInt false 32 k]) = (rho "esp" + k) mod 2 ^ 32.
+Proof. intros rho mu iota k. split; [apply esp_minus | apply esp_plus]. Qed.
+Print Assumptions C04_push_pop_stack_pointer.
+
+Theorem C04_pop_addresses_through_incremented_esp : forall rho mu iota n, size n = 32 -> 0 <= eval rho mu iota n < 2 ^ 32 ->
+  forall e, addr_shape e = true ->
+  eval rho mu iota (subst_esp n e) = eval (fun x => if (x =? "esp")%string then eval rho mu iota n else rho x) mu iota e.
+Proof. exact subst_esp_eval. Qed.
+Print Assumptions C04_pop_addresses_through_incremented_esp.
+
+Theorem C04_cmc : forall rho mu iota, eval rho mu iota (ECond (flag "cf") (i1 0) (i1 1)) = 1 - wrap 1 (rho "cf").
+Proof. exact cmc_value. Qed.
+Print Assumptions C04_cmc.
+
 (** the mirror lays the assignments out as the lifter does *)
 Example C04_mirror_layout : forall a b, let c := alu_val Add a b in
   mirror Add a b = [upd_zf c; upd_nf c; upd_pf c; upd_af c; EAff (flag "cf") (add_cf_src a b c); EAff (flag "of") (add_of_src a b c); mk_aff a c].
@@ -119,3 +205,14 @@ Example C04_af_refuted : exists rho, let a := EId "eax" 32 true false in let b :
   eval rho (fun _ => 0) (fun _ _ => 0) (ECond (e_and (alu_val Add a b) (int_from (alu_val Add a b) 16)) (i1 1) (i1 0)) = 1 /\
   (rho "eax" mod 16 + rho "ebx" mod 16) / 16 = 0.
 Proof. exact af_formula_refuted. Qed.
+(** non-vacuity of the condition-code theorems: hundreds of regenerated forms per family, all sixteen conditions in each *)
+Example C04_cc_nonvacuous : (400 <= n_cc FSet)%nat /\ (1200 <= n_cc FCmov)%nat /\ (50 <= n_cc FJcc)%nat.
+Proof. exact many_cc_forms. Qed.
+Example C04_cc_all_sixteen : forallb (fun f => forallb (occurs f) ccs) [FSet; FCmov; FJcc] = true.
+Proof. exact every_condition_occurs. Qed.
+Example C04_mv_nonvacuous : (1100 <= n_mv true)%nat /\ (n_mv false <= 120)%nat.
+Proof. exact many_mv_forms. Qed.
+(** the mirror of `pop dword ptr [esp+4]`: the destination address uses esp + 4 *)
+Example C04_pop_mirror : mirror_mv Pop [EMem (EOp "+" [esp; EInt false 32 4]) 32 None] =
+  Some [EAff esp (EOp "+" [esp; EInt false 32 4]); EAff (EMem (EOp "+" [EOp "+" [esp; EInt false 32 4]; EInt false 32 4]) 32 None) (EMem esp 32 None)].
+Proof. reflexivity. Qed.
